@@ -13,6 +13,7 @@ import (
 	"go/token"
 	"os"
 	"path/filepath"
+	"regexp"
 	"sort"
 	"strconv"
 	"strings"
@@ -23,11 +24,24 @@ type block struct {
 	hit              bool
 }
 
+func mustRead(p string) []byte {
+	b, err := os.ReadFile(p)
+	if err != nil {
+		panic(err)
+	}
+	return b
+}
+
 func main() {
 	overlay := flag.String("overlay", "", "overlay.json")
 	repo := flag.String("repo", "/repo", "repository root")
 	mod := flag.String("mod", "github.com/obolnetwork/charon", "module path")
+	show := flag.String("show", "", "regexp over file:function; print the source of their uncovered blocks instead of the table")
 	flag.Parse()
+	var showRe *regexp.Regexp
+	if *show != "" {
+		showRe = regexp.MustCompile(*show)
+	}
 	repl := map[string]string{}
 	if *overlay != "" {
 		var o struct{ Replace map[string]string }
@@ -132,6 +146,27 @@ func main() {
 				}
 			}
 			if tot == 0 {
+				continue
+			}
+			if showRe != nil {
+				if !showRe.MatchString(rel + ":" + name) {
+					continue
+				}
+				lines := strings.Split(string(mustRead(src)), "\n")
+				fmt.Printf("== %s %s %d/%d\n", rel, name, cov, tot)
+				var unc []*block
+				for _, b := range blocks[file] {
+					if !b.hit && (b.sl > s.Line || (b.sl == s.Line && b.sc >= s.Column)) && (b.el < e.Line || (b.el == e.Line && b.ec <= e.Column+1)) {
+						unc = append(unc, b)
+					}
+				}
+				sort.Slice(unc, func(i, j int) bool { return unc[i].sl < unc[j].sl || (unc[i].sl == unc[j].sl && unc[i].sc < unc[j].sc) })
+				for _, b := range unc {
+					for l := b.sl; l <= b.el && l <= len(lines); l++ {
+						fmt.Printf("  %5d| %s\n", l, lines[l-1])
+					}
+					fmt.Println("       ---")
+				}
 				continue
 			}
 			fmt.Printf("%s\t%s\t%d\t%d\n", rel, name, cov, tot)
